@@ -74,7 +74,7 @@ ASSUMPTIONS = [
     "'suppressed nothing' is decided on what was observed: no diagnostic of D(P) is missing from D(P + comment)",
     "diagnostics produced after check() returns (ClassAttributeChecker) are not observable through harness.run except on the CLI route",
 ]
-FLOORS = {   # ~50 % of what the unchanged tree yields (quick: 304 programs, thorough: 1600)
+FLOORS = {   # ~50 % of what the unchanged tree yields (quick: 288 programs, thorough: 1600)
     "quick": {"distinct_nontrivial": 19500, "programs": 150, "disable_cases": 13500, "disable_cases_nontrivial": 13000,
               "comment_cases": 19500, "comment_cases_target_has_diag": 3600, "comment_suppressed_something": 4100,
               "eof_own_line_cases": 450, "file_level_bare_cases": 170, "fresh_checker_configs": 580, "cli_runs": 24},
@@ -597,7 +597,7 @@ def report(ctx, key, what, witness, seen_keys, budget):
 
 
 def shard(ctx) -> None:
-    nprog = ctx.pick(304, 1600)
+    nprog = ctx.pick(288, 1600)
     prog_rng = random.Random(f"C11-programs/{ctx.seed}")   # the same program list in every shard
     shared = _Shared()
     seen_keys: set = set()
